@@ -19,7 +19,7 @@ from pyvc import replay
 from spec import c11, ir
 from . import irkit, tkit, emit
 from .common import WORKERS, T8, tname, conc_vt, run_mutants
-from .c03 import callback_paths, mk_rp, _real_operand, _concrete_den
+from .c03 import callback_paths, mk_rp, _real_operand, _concrete_den, faithful
 
 PROP = "C02"
 M_T = tkit.M_T
@@ -351,11 +351,17 @@ def replay_callback(a):
     from rzilcompiler.ArchEnum import ArchEnum
     mdl = {k: (0 if v is None else v) for k, v in (a.get("model") or {}).items()}
     ka, ta = a["ka"], tuple(a["ta"])
-    oa = _real_operand(ka, ta, "a")
+
+    def lit(nm, k, t):
+        return (mdl.get(nm + "_lit", 0) or 0) % (1 << t[1]) if k == "Number" else 0
+    oa = _real_operand(ka, ta, "a", lit("a", ka, ta))
     vals = {}
+    kinds_used = [ka, a.get("kb"), a.get("kc")]
 
     def setv(nm, k, t):
         v = mdl.get(nm, 0)
+        if k == "Number":
+            v = lit(nm, k, t)
         if k in irkit.BOOL_KINDS:
             vals[(nm + "_nz", 8)] = 1 if v else 0
             vals[(nm + "_z", 8)] = 0
@@ -373,7 +379,7 @@ def replay_callback(a):
             desc = f"{op}a  (a: {ka} {tname(ta)} = {mdl.get('a', 0):#x})"
         else:
             kb, tb = a["kb"], tuple(a["tb"])
-            ob = _real_operand(kb, tb, "b")
+            ob = _real_operand(kb, tb, "b", lit("b", kb, tb))
             xb, ctb = setv("b", kb, tb)
             if cb == "conditional_expr":
                 oc = _real_operand(a["kc"], (True, 32), "c")
@@ -406,11 +412,15 @@ def replay_callback(a):
         if srt != "bool":
             return True, f"{cb}: {desc} -> {r}: sort {srt}, a comparison/logical result must be boolean"
         got = _concrete_den(r, vals)
+        if bool(got) == bool(want) and not faithful(*kinds_used):
+            return "inconclusive", f"{cb}: {desc} with stand-in variables for {kinds_used}: agrees with C11"
         return bool(got) != bool(want), f"{cb}: {desc} -> {r}: IR value {got}, C11 value {want}"
     rt = ir.vt(r)
     if srt != ("bv", et[1]) or rt[0] != et[0]:
         return True, f"{cb}: {desc} -> {r}: typed {tname(rt)}, C11 result type {tname(et)}"
     got = _concrete_den(r, vals)
+    if got == want and not faithful(*kinds_used):
+        return "inconclusive", f"{cb}: {desc} with stand-in variables for {kinds_used}: agrees with C11"
     return got != want, f"{cb}: {desc} -> {r}: IR value {got:#x}, C11 value {want:#x}"
 
 
